@@ -44,7 +44,7 @@ def plan(tier, seed):
 
 def gen_case(rng, ctx):
     gen.OUTLIER["n_only_up_to"] = 9
-    cls, ds = gen.dataset(rng, classes="D1 D2 D3 D3 D4 D6 D7 D9 D11 D14 D14 D13 D17 D17 D16", nmax=6, mmax=5)
+    cls, ds = gen.dataset(rng, classes="D1 D2 D3 D3 D4 D6 D7 D9 D11 D14 D14 D13 D17 D17 D16 D18", nmax=6, mmax=5)
     ds = libx.normalise_raw(ds)
     scls, sch = gen.scheme(rng, "S1 S1 S2 S3 S6")
     k = rng.randint(3, 12)
